@@ -94,3 +94,7 @@ claim('C43', 'translation_validation',
       'PARTIAL (behavioural part): files violating the fixable rules are checked and fixed by the real Linter in a scratch directory, read back and parsed; z3 decides whether the fixed program can behave differently from the original for any input. Whether the fixer runs at all and whether the fixed rules still report violations is executed concretely and reported (recorded defects: see known findings), but is not a solver verdict.',
       TV_NOTE + ' "All other text unchanged" has no value domain and is not claimed.',
       'translation validation (z3 equivalence of original vs fixed file) + concrete re-lint', 'E-SMT', 'DESIGN.md#C43')
+claim('C04', 'model_checking',
+      'CrossHair executes the real JoinableStringList wrapping with two symbolic item lengths per layout (separators, nesting, separable flag, indentation, quoted strings, blanks, width 132) and confirms over all paths that removing the continuation markers gives the unwrapped token sequence and that no line exceeds the width unless a single unbreakable piece does.',
+      'Trusted: CrossHair + z3. Outside: whole-program fgen (IR is not executable under CrossHair), comments appended with comment=.',
+      'CrossHair symbolic execution with symbolic string lengths', 'E-XH', 'DESIGN.md#C04')
